@@ -11,6 +11,7 @@ import (
 
 	sdk "github.com/cosmos/cosmos-sdk/types"
 	authtypes "github.com/cosmos/cosmos-sdk/x/auth/types"
+	minttypes "github.com/cosmos/cosmos-sdk/x/mint/types"
 
 	bandtesting "github.com/bandprotocol/chain/v3/testing"
 	tunnelkeeper "github.com/bandprotocol/chain/v3/x/tunnel/keeper"
@@ -298,6 +299,47 @@ func (c *caseT) genesis() {
 	c.tr.Op(fx.M{"op": "genesis", "variant": variant, "count": g.TunnelCount, "tunnels": tun, "deposits": deps, "out": fx.M{"accepted": err == nil, "err": es}})
 }
 
+// importBalance: a genesis that passes ValidateGenesis is imported on a branch whose tunnel module account holds MORE, LESS
+// or NOTHING of what the genesis says it escrows (deposits + fees): InitGenesis must refuse every unbacked one
+func (c *caseT) importBalance() {
+	cctx, _ := c.ctx.CacheContext()
+	g := tunnelkeeper.ExportGenesis(cctx, c.app.TunnelKeeper)
+	if tunneltypes.ValidateGenesis(*g) != nil {
+		return
+	}
+	var want sdk.Coins
+	for _, d := range g.Deposits {
+		want = want.Add(d.Amount...)
+	}
+	want = want.Add(g.TotalFees.Total()...)
+	modAddr := c.app.AccountKeeper.GetModuleAddress(tunneltypes.ModuleName)
+	have := c.app.BankKeeper.GetAllBalances(cctx, modAddr)
+	variant := c.r.Intn(4)
+	switch variant {
+	case 0: // untouched
+	case 1: // the module account is empty
+		if !have.IsZero() {
+			fx.Must(c.app.BankKeeper.SendCoinsFromModuleToModule(cctx, tunneltypes.ModuleName, authtypes.FeeCollectorName, have))
+		}
+	case 2: // one unit short in one denom
+		if !have.IsZero() {
+			fx.Must(c.app.BankKeeper.SendCoinsFromModuleToModule(cctx, tunneltypes.ModuleName, authtypes.FeeCollectorName, sdk.NewCoins(sdk.NewInt64Coin(have[c.r.Intn(len(have))].Denom, 1))))
+		}
+	case 3: // one unit too many
+		extra := sdk.NewCoins(sdk.NewInt64Coin(denoms[c.r.Intn(len(denoms))], 1))
+		fx.Must(c.app.BankKeeper.MintCoins(cctx, minttypes.ModuleName, extra))
+		fx.Must(c.app.BankKeeper.SendCoinsFromModuleToModule(cctx, minttypes.ModuleName, tunneltypes.ModuleName, extra))
+	}
+	have = c.app.BankKeeper.GetAllBalances(cctx, modAddr)
+	e := fx.Try(func() error {
+		wipe(cctx.KVStore(c.app.GetKey(tunneltypes.StoreKey)))
+		tunnelkeeper.InitGenesis(cctx, c.app.TunnelKeeper, g)
+		return nil
+	})
+	c.tr.Tag(fmt.Sprintf("import-balance-variant-%d", variant))
+	c.tr.Op(fx.M{"op": "importBalance", "variant": variant, "escrowed": amounts(want), "balance": amounts(have), "out": fx.M{"accepted": e == ""}})
+}
+
 // reimport: export the module's genesis, validate it, initialise a branch of the store from it; the dump must not change
 // setMinDeposit: governance changes the minimum deposit (MsgUpdateParams → SetParams); existing tunnels are not touched
 func (c *caseT) setMinDeposit() {
@@ -369,6 +411,7 @@ func runCase(app *fx.App, tr *fx.Trace, r *fx.Rng) {
 		if r.Chance(1, 12) {
 			c.setMinDeposit()
 			c.reimport()
+			c.importBalance()
 		}
 	}
 	c.genesis()
